@@ -271,11 +271,11 @@ func idleLoops(trace []vrun.TraceRec, mrpPid int) int {
 }
 
 type crashOutcome struct {
-	spec        []crashSpec
-	violations  []string // signature|what
-	inconclusive string
-	crashedRuns int
-	restarts    int
+	spec          []crashSpec
+	violations    []string // signature|what
+	inconclusive  string
+	crashedRuns   int
+	restarts      int
 	reexecChecked int
 }
 
@@ -711,10 +711,10 @@ func kindFor(fp *faultProgram, job, kind string, k int) string {
 var pyFailKinds = []string{"py_raise", "py_exit", "py_throw", "py_sysexit", "py_osexit", "py_kill"}
 
 type failOutcome struct {
-	violations   []string
-	inconclusive string
-	faultFired   bool
-	bystander    string // fork kept running during an in-process retry
+	violations    []string
+	inconclusive  string
+	faultFired    bool
+	bystander     string // fork kept running during an in-process retry
 	retriedOthers int
 }
 
